@@ -90,6 +90,12 @@ def allowed_locs(I, fc, entry_env, old_heap):
     I.spec_depth += 1
     try:
         for loc in fc.modifies:
+            # "post:<loc>": the location is resolved in the FINAL state (e.g. a field of the object a pointer has
+            # been moved to during the call)
+            I.heap = old_heap
+            if loc.startswith("post:"):
+                loc = loc[5:]
+                I.heap = saved_heap
             if loc.endswith(".**"):
                 # every container reachable from the value (nested lists / dicts)
                 try:
@@ -237,6 +243,8 @@ def run_path(cset, fc, prefix, res, opts):
         # --- frame
         allowed, star_objs = allowed_locs(I, fc, entry_env, entry)
         for key in sorted(I.modified, key=lambda k: (getattr(k[0], "name", ""), str(k[1]))):
+            if fc.skip_frame:
+                break
             if key in allowed or key[0] in star_objs:
                 continue
             if key not in entry.data and entry.ver.get(key, 0) == 0 and not _reachable_at_entry(key, entry):
